@@ -2,7 +2,7 @@
 import math, sys
 import lib
 from common import fkey, enc_pos, enc_ints, enc_keys, dec_pos
-from runlevel import SWARM, GREEDY_AGENTS, GREEDY_RANK, ADAPTIVE, budget
+from runlevel import SWARM, GREEDY_AGENTS, GREEDY_RANK, ADAPTIVE, budget, fnum
 
 FMAX_KEY = fkey(sys.float_info.max)
 
@@ -30,7 +30,7 @@ class RefMap:
 
 
 def enc_ag(pos, tpos, fit, ref):
-    return f'{enc_pos(pos)}~{enc_pos(tpos)}~{fkey(float(fit))}~{ref}'
+    return f'{enc_pos(pos)}~{enc_pos(tpos)}~{fkey(fnum(fit))}~{ref}'
 
 
 def enc_snap_pop(snap, refmap, gp):
@@ -45,10 +45,10 @@ def enc_best(snap, refmap):
 
 def snap_nan(snap, np):
     for a in snap['pop']:
-        if has_nan(a['pos'], np) or has_nan(a['tpos'], np) or float(a['fit']) != float(a['fit']):
+        if has_nan(a['pos'], np) or has_nan(a['tpos'], np) or fnum(a['fit']) != fnum(a['fit']):
             return True
     b = snap['best']
-    return has_nan(b['pos'], np) or float(b['fit']) != float(b['fit'])
+    return has_nan(b['pos'], np) or fnum(b['fit']) != fnum(b['fit'])
 
 
 def machine_lines(rec):
@@ -73,7 +73,7 @@ def machine_lines(rec):
     in_sweep, cursor = False, 0
 
     def same_best(a, b):
-        return (a['ref'] == b['ref'] and fkey(float(a['fit'])) == fkey(float(b['fit']))
+        return (a['ref'] == b['ref'] and fkey(fnum(a['fit'])) == fkey(fnum(b['fit']))
                 and enc_pos(a['pos']) == enc_pos(b['pos']))
 
     def flush(snap, idx):
@@ -87,10 +87,10 @@ def machine_lines(rec):
             pending = None
             old_best = ev['snap']['best']
             changed = not same_best(old_best, snap['best'])
-            v = fkey(float(ev['val']))
+            v = fkey(fnum(ev['val']))
             relaxed = False
             if ev['_kind'] == 'sweep':
-                tie = changed and fkey(float(snap['best']['fit'])) == fkey(float(old_best['fit']))
+                tie = changed and fkey(fnum(snap['best']['fit'])) == fkey(fnum(old_best['fit']))
                 lines.append(f"m.sweep {v} {1 if tie else 0} {refmap(snap['best']['ref'])} {enc_pos(ev['arg'])}")
                 relaxed = ev['_last']
             elif changed:
@@ -129,7 +129,7 @@ def machine_lines(rec):
                 last_pop = pe
                 in_sweep, cursor = True, 0
             elif t == 'eval':
-                if ev['snap'] is None or has_nan(ev['arg'], np) or float(ev['val']) != float(ev['val']):
+                if ev['snap'] is None or has_nan(ev['arg'], np) or fnum(ev['val']) != fnum(ev['val']):
                     raise FloatingPointError('nan')
                 flush(ev['snap'], idx)
                 ev['_idx'] = idx
@@ -292,12 +292,12 @@ def oracle_c02(rec):
     prev_best_fit = None
     for i, e in enumerate(rec['events']):
         if e['t'] == 'eval':
-            vals.append((e['arg'], float(e['val']), e.get('_kind')))
+            vals.append((e['arg'], fnum(e['val']), e.get('_kind')))
         elif e['t'] == 'dump':
             stats['dumps'] += 1
             b = e['snap']['best']
             mn = min(v for _, v, _ in vals)
-            bf = float(b['fit'])
+            bf = fnum(b['fit'])
             if bf != mn:
                 issues.append(dict(what='best-not-min', ev=i, best_fit=bf, min=mn))
             elif not any(v == bf and a.shape == b['pos'].shape and np.array_equal(a, b['pos']) for a, v, _ in vals):
@@ -317,10 +317,10 @@ def oracle_c02(rec):
     if rec['error'] is None and rec.get('final') is not None and vals:
         b = rec['final']['best']
         mn = min(v for _, v, _ in vals)
-        if float(b['fit']) != mn:
-            issues.append(dict(what='best-not-min', ev='final', best_fit=float(b['fit']), min=mn))
+        if fnum(b['fit']) != mn:
+            issues.append(dict(what='best-not-min', ev='final', best_fit=fnum(b['fit']), min=mn))
         h = rec['history']
-        bf = [float(r[1]) for r in getattr(h, 'best_agent', [])]
+        bf = [fnum(r[1]) for r in getattr(h, 'best_agent', [])]
         if any(bf[k + 1] > bf[k] for k in range(len(bf) - 1)):
             issues.append(dict(what='history-best-increased', series=bf))
         n = rec['final_live']['n']
@@ -437,7 +437,7 @@ def oracle_c04(rec, driver=None):
     if 'agents' not in dumped or 'best_agent' not in dumped:
         issues.append(dict(what='not-dumped', dumped=sorted(dumped)))
     tm = attrs.get('time')
-    if not (isinstance(tm, list) and len(tm) == 1 and float(tm[0]) >= 0):
+    if not (isinstance(tm, list) and len(tm) == 1 and fnum(tm[0]) >= 0):
         issues.append(dict(what='time', value=repr(tm)[:80]))
     for k in keys - {'time'}:
         if len(attrs[k]) != N:
@@ -497,7 +497,7 @@ def same_record(a, b):
     if isinstance(a, (list, tuple)) or isinstance(b, (list, tuple)):
         return False
     try:
-        fa, fb = float(a), float(b)
+        fa, fb = fnum(a), fnum(b)
         return fa == fb or (fa != fa and fb != fb)
     except Exception:
         return a == b
@@ -544,7 +544,7 @@ def oracle_c07(rec):
 
 
 def ulp(x):
-    x = abs(float(x))
+    x = abs(fnum(x))
     return math.ulp(x) if x > 0 else 5e-324
 
 
@@ -622,7 +622,7 @@ def oracle_c15(rec, driver=None):
         # the same updates as the translator read them from the current source (Generated/FormulasDefs), evaluated in
         # Lean Float: every line below has a twin `fx sched …` line whose answer must coincide with the hand model's
         def envs(d):
-            return ','.join(f'{k}={fbits(float(v))}' for k, v in d.items())
+            return ','.join(f'{k}={fbits(fnum(v))}' for k, v in d.items())
         tl = []
         for l in lines:
             f = l.split()
@@ -689,10 +689,10 @@ def oracle_c20(rec):
         for j, (p, f) in enumerate(ag):
             stats['records'] += 1
             pos = np.array(loc[j] if (kind in SWARM and loc is not None) else p, dtype=float)
-            v = float(of(pos))
-            fits.append(float(f))
-            if not (v == float(f) or (v != v and float(f) != float(f))):
-                issues.append(dict(what='untruthful-record', t=t, agent=j, stored=float(f), objective=v,
+            v = fnum(of(pos))
+            fits.append(fnum(f))
+            if not (v == fnum(f) or (v != v and fnum(f) != fnum(f))):
+                issues.append(dict(what='untruthful-record', t=t, agent=j, stored=fnum(f), objective=v,
                                    position=pos.tolist()))
         if prev is not None:
             if kind in GREEDY_AGENTS or kind in SWARM:
@@ -734,8 +734,8 @@ def oracle_c12(rec):
         bp = snap['best']['pos']
         if bv.shape != bp.shape or not np.array_equal(bv, bp, equal_nan=True):
             issues.append(dict(what='best-tree-value', ev=i, tree=bv.tolist(), best=bp.tolist()))
-        elif float(of(bp)) != float(snap['best']['fit']):
-            issues.append(dict(what='best-fitness', ev=i, objective=float(of(bp)), stored=float(snap['best']['fit'])))
+        elif fnum(of(bp)) != fnum(snap['best']['fit']):
+            issues.append(dict(what='best-fitness', ev=i, objective=fnum(of(bp)), stored=fnum(snap['best']['fit'])))
         if g['shared_nodes'] or g['shared_arrays']:
             issues.append(dict(what='best-tree-not-detached', ev=i, nodes=g['shared_nodes'], arrays=g['shared_arrays']))
         for j, (tv, a) in enumerate(zip(g['vals'], snap['pop'])):
@@ -743,7 +743,7 @@ def oracle_c12(rec):
             if cv.shape != a['real'].shape or not np.array_equal(cv, a['real'], equal_nan=True):
                 issues.append(dict(what='agent-tree-value', ev=i, agent=j, tree=cv.tolist(), agent_pos=a['real'].tolist()))
                 break
-            if float(of(a['real'])) != float(a['fit']) and not (float(a['fit']) != float(a['fit'])):
+            if fnum(of(a['real'])) != fnum(a['fit']) and not (fnum(a['fit']) != fnum(a['fit'])):
                 issues.append(dict(what='agent-fitness', ev=i, agent=j))
                 break
     return issues, stats
